@@ -239,6 +239,12 @@ void
 nni_msgq_aio_put(nni_msgq *mq, nni_aio *aio)
 {
 	nni_mtx_lock(&mq->mq_lock);
+	if (mq->mq_closed) {
+		// nobody would ever complete (or could safely cancel) it
+		nni_mtx_unlock(&mq->mq_lock);
+		nni_aio_finish_error(aio, NNG_ECLOSED);
+		return;
+	}
 
 	// If this is an instantaneous poll operation, and the queue has
 	// no room, nobody is waiting to receive, then report NNG_ETIMEDOUT.
@@ -268,6 +274,11 @@ void
 nni_msgq_aio_get(nni_msgq *mq, nni_aio *aio)
 {
 	nni_mtx_lock(&mq->mq_lock);
+	if (mq->mq_closed) {
+		nni_mtx_unlock(&mq->mq_lock);
+		nni_aio_finish_error(aio, NNG_ECLOSED);
+		return;
+	}
 	// Complete at once if we can (also for a zero timeout): a message is
 	// queued or a writer is waiting, and no earlier reader is waiting.
 	if (nni_list_empty(&mq->mq_aio_getq) &&
